@@ -332,6 +332,8 @@ func init() {
 	registerTime(reg)
 	registerMisc(reg)
 	registerBinary(reg)
+	registerRand(reg)
+	registerCRC(reg)
 }
 
 func concreteF1(f func(float64) float64) intrinsic {
